@@ -9,7 +9,7 @@ from pycoin.coins.bitcoin.SolutionChecker import BitcoinSolutionChecker
 from pycoin.ecdsa.secp256k1 import secp256k1_generator as G
 from pycoin.encoding.sec import public_pair_to_sec, sec_to_public_pair
 from pycoin.encoding.hash import hash160
-from pycoin.satoshi import der, flags as F
+from pycoin.satoshi import der, checksigops, flags as F
 
 from props import c03m_gen as g
 
@@ -65,12 +65,14 @@ def sign(i, code, wit=False, hashtype=1, ctx=g.CTX0, high_s=False):
 
 
 def really_verifies(sig, pub, code, wit, ctx):
-    """pycoin's own steps: lax DER parse, sec_to_public_pair(strict=False), sighash, generator.verify"""
+    """pycoin's own steps: lax DER parse, public_pair_for_blob, sighash, generator.verify"""
     if len(sig) == 0:
         return False
     try:
-        rs = der.sigdecode_der(sig[:-1], use_broken_open_ssl_mechanism=True)
-        pair = sec_to_public_pair(pub, G, strict=False)
+        rs = der.sigdecode_der_lax(sig[:-1])
+        pair = checksigops.public_pair_for_blob(pub, G)
+        if pair is None:
+            return False
         return bool(G.verify(pair, sighash(code, wit, sig[-1], ctx), rs))
     except Exception:  # noqa: BLE001
         return False
